@@ -188,6 +188,41 @@ theorem nestedSrc_run :
        | none => false
      | _, _ => false) = true := by decide +kernel
 
+/-- a **guarded bind nested as a value**: `(:= Report.x (if (> Ack.bytes_acked 0) 7))` is an operand of `+`; the
+operator before it reads the old `Report.x`, the one after it the new one -/
+def guardedNestedSrc : List Char :=
+  ("(def (Report (r 0) (x 1))) (when true " ++
+   "(:= Report.r (+ (* Report.x 2) (+ (:= Report.x (if (> Ack.bytes_acked 0) 7)) (* Report.x 2)))) (report))").toList
+
+/-- non-vacuity on nested guarded binds: `guardedNestedSrc` is in the fragment `InOracle` (kernel-checked) … -/
+theorem guardedNestedSrc_inOracle :
+    (match parseSource guardedNestedSrc with
+     | some (_, evs) => InOracle evs
+     | none => false) = true := by decide +kernel
+
+/-- … it is not `Stratified`, and it meets every hypothesis of the theorem -/
+theorem guardedNestedSrc_not_stratified :
+    (match parseSource guardedNestedSrc with
+     | some (_, evs) => Stratified evs
+     | none => true) = false := by decide +kernel
+
+theorem guardedNestedSrc_inTheorem : inTheorem 1 guardedNestedSrc [] = true := by decide +kernel
+
+/-- the instance of `compiled_run_correct` on `guardedNestedSrc`, by evaluation (kernel-checked), two invocations
+with every primitive at 7: the source semantics and the libccp machine running the compiled code both report
+`r = 1*2 + (7 + 7*2) = 23`, `x = 7`, then `r = 7*2 + (7 + 7*2) = 35`, `x = 7` -/
+theorem guardedNestedSrc_run :
+    (match parseSource guardedNestedSrc, compile 1 guardedNestedSrc [] with
+     | some (ds, evs), .ok (bin, _) =>
+       match varDecls ds [] with
+       | some decls =>
+         decide ((Sem.run decls evs (Sem.initState decls 100) [exEnv, exEnv]).mapM ofSem =
+           some [.done (some 10) (some 20) (some [23, 7]), .done (some 10) (some 20) (some [35, 7])]) &&
+         decide ((vmRun (progOf 1 bin) (afterSwitch exEnv (progOf 1 bin) exConn 100) [exEnv, exEnv]).map ofVm =
+           [.done (some 10) (some 20) (some [23, 7]), .done (some 10) (some 20) (some [35, 7])])
+       | none => false
+     | _, _ => false) = true := by decide +kernel
+
 /-- `(:= x (+ (:= x 1) (:= x 2)))`: the left operand's result register is the register of `x`, which the right
 operand assigns before the `+` instruction reads it -/
 def hazardSrc : List Char :=
